@@ -818,3 +818,14 @@ func RunPlayCfg(c *h.Ctx, cfg h.TableCfg, po PlayOpts, mon *PlayMon) *Play {
 }
 
 func newRand(seed int64) *rand.Rand { return rand.New(rand.NewSource(seed)) }
+
+// setBreak announces a break level. Half of the announcements carry all-zero amounts, the other half keep the amounts of
+// the level in force (a competition layer may send either); round 7: an engine that compares only the amounts drops the
+// second kind.
+func setBreak(te pt.TableEngine, r *rand.Rand) {
+	if bs := te.GetTable().State.BlindState; bs != nil && r.Intn(2) == 0 {
+		te.UpdateBlind(-1, bs.Ante, bs.Dealer, bs.SB, bs.BB)
+		return
+	}
+	te.UpdateBlind(-1, 0, 0, 0, 0)
+}
